@@ -67,7 +67,8 @@ def _ops(ctx, p, dim, others):
                 ('arg:Shot.look_angle', lambda q: p.Shot(p.Weapon(), p.Ammo(dm(), 800), look_angle=q, atmo=_ATMO[0])),
                 ('arg:Shot.relative_angle', lambda q: p.Shot(p.Weapon(), p.Ammo(dm(), 800), relative_angle=q, atmo=_ATMO[0])),
                 ('arg:Shot.cant_angle', lambda q: p.Shot(p.Weapon(), p.Ammo(dm(), 800), cant_angle=q, atmo=_ATMO[0])),
-                ('arg:Wind.direction_from', lambda q: p.Wind(direction_from=q))]
+                ('arg:Wind.direction_from', lambda q: p.Wind(direction_from=q)),
+                ('lib:set_weapon_zero_on_a_weapon_holding_q', _zero_with)]
     elif dim == 'Velocity':
         ops += [('arg:Ammo.mv', lambda q: p.Ammo(dm(), q)), ('arg:Wind.velocity', lambda q: p.Wind(velocity=q)),
                 ('arg:get_velocity_for_temp', lambda q: p.Ammo(dm(), q, use_powder_sensitivity=True).get_velocity_for_temp(p.Unit.Celsius(3)))]
@@ -80,6 +81,23 @@ def _ops(ctx, p, dim, others):
 
 
 _ATMO = [None]
+
+
+def _zero_with(q):
+    """q is a weapon's stored zero (also held by a second weapon); the weapon is zeroed through the real Calculator entry point with the solver
+    object replaced by a recorder (no physics): the weapon gets a NEW zero quantity, q itself keeps its magnitude"""
+    p = pybc()
+    calc = p.Calculator()
+
+    class Rec:
+        def zero_angle(self, shot, distance):
+            return p.Angular.Radian(0.0123)
+    calc._calc = Rec()
+    weapon = p.Weapon(p.Unit.Inch(2.0), p.Unit.Inch(10.0), q)
+    held = p.Weapon(zero_elevation=q)
+    shot = p.Shot(weapon, p.Ammo(p.DragModel(0.3, p.TableG7), p.Unit.FPS(2700.0)), atmo=_ATMO[0])
+    calc.set_weapon_zero(shot, p.Unit.Foot(250.0))
+    return held.zero_elevation is q
 
 
 def _cfg(tier):
